@@ -282,3 +282,60 @@ def rec_dropaxis(b, block_info=None):
         i0 = block_info[0]
         LOG.append({"kind": "info", "loc": tuple(i0["chunk-location"]), "aloc": [tuple(t) for t in i0["array-location"]], "cshape": _cs(i0), "nchunks": tuple(i0["num-chunks"]), "shape": tuple(i0["shape"]), "bshape": tuple(b.shape)})
     return b.sum(axis=0)
+
+
+# ---- C29: recording source and recording user functions
+TOUCH = []
+
+
+class RecSource:
+    """Array-like that records every data access (C29)."""
+
+    def __init__(self, a):
+        self.a = a
+        self.shape, self.dtype, self.ndim = a.shape, a.dtype, a.ndim
+
+    def __getitem__(self, idx):
+        r = self.a[idx]
+        if np.size(r) > 0:
+            TOUCH.append(("getitem", repr(idx)))
+        return r
+
+    def __array__(self, dtype=None, copy=None):
+        TOUCH.append(("__array__",))
+        return np.asarray(self.a, dtype=dtype)
+
+    def __len__(self):
+        return self.shape[0]
+
+
+def _synthetic(b):
+    """dtype/meta inference probes a function with one-element fake data
+    (np.ones / np.zeros of shape (1,) * ndim); anything else non-empty is real data."""
+    try:
+        arr = np.asarray(b)
+        # one element, holding 0 or 1 (zeros_like / ones_like fake data); the
+        # recording sources hold values >= 10
+        if arr.dtype.kind == "f":
+            return arr.size <= 1 and bool(np.all((arr == 1) | (arr == 0) | np.isnan(arr)))
+        return arr.size <= 1 and bool(np.all((arr == 1) | (arr == 0)))
+    except Exception:
+        return False
+
+
+def touch(b, *a, **k):
+    if getattr(b, "size", 0) > 0:
+        TOUCH.append(("userfn", "touch" + ("-probe" if _synthetic(b) else ""), tuple(getattr(b, "shape", ()))))
+    return b
+
+
+def touch_chunk(x, axis=None, keepdims=False):
+    if getattr(x, "size", 0) > 0:
+        TOUCH.append(("userfn", "touch_chunk" + ("-probe" if _synthetic(x) else ""), tuple(x.shape)))
+    return np.sum(x, axis=axis, keepdims=keepdims)
+
+
+def touch_agg(x, axis=None, keepdims=False):
+    if getattr(x, "size", 0) > 0:
+        TOUCH.append(("userfn", "touch_agg" + ("-probe" if _synthetic(x) else ""), tuple(np.shape(x))))
+    return np.sum(x, axis=axis, keepdims=keepdims)
